@@ -226,6 +226,12 @@ def r6(ctx):
         if not need(ctx, P, rule, fn, fa):
             continue
         nx = iterator_loops(fa, over)
+        if not nx:
+            # the same thing as one bulk operation of std: dst.extend(src) / append(src) moves every element
+            bulk = [s_ for s_, t_ in fa.calls() if (t_.get("callee") or "").split("::")[-1] in ("extend", "append", "extend_from_slice") and len(t_["args"]) == 2 and over in term_str(fa.arg_origin(s_, 1))]
+            if bulk:
+                ctx.ok(P, rule, "%s: %s" % (fn.split("::")[-1], what), "bulk %s of `%s`: every element is moved" % (callee_of(fa.blocks[bulk[0]].term).split("::")[-1], over), [site_desc(fa, bulk[0])])
+                continue
         if not need(ctx, P, rule, "%s: loop over %s" % (fn.split("::")[-1], over), nx):
             continue
         if callee:
